@@ -49,6 +49,7 @@ def Ws1 (s : List Nat) : Prop := ∃ w r, w ∈ WS ∧ Ws r ∧ s = w ++ r
 
 /-- ASCII digits -/
 def Digits (ds : List Nat) : Prop := ∀ b ∈ ds, 48 ≤ b ∧ b ≤ 57
+instance (ds : List Nat) : Decidable (Digits ds) := by unfold Digits; exact inferInstance
 
 /-- the number a digit string spells -/
 def decVal (ds : List Nat) : Nat := ds.foldl (fun a b => a * 10 + (b - 48)) 0
@@ -58,8 +59,10 @@ def lower (b : Nat) : Nat := if 65 ≤ b ∧ b ≤ 90 then b + 32 else b
 
 /-- `v` spells the lower-case word `word` in some mixture of letter cases -/
 def CaseOf (word v : List Nat) : Prop := v.map lower = word
+instance (word v : List Nat) : Decidable (CaseOf word v) := by unfold CaseOf; exact inferInstance
 
 def isAlpha (b : Nat) : Prop := (65 ≤ b ∧ b ≤ 90) ∨ (97 ≤ b ∧ b ≤ 122)
+instance (b : Nat) : Decidable (isAlpha b) := by unfold isAlpha; exact inferInstance
 
 /-- "mon" … "sun" -/
 def dayNames : List (List Nat) :=
